@@ -110,6 +110,12 @@ func (e *Effects) step(fn *ssa.Function, s *fnState, sum *Summary, ins ssa.Instr
 						s.taint(cs, subst0(ef.Val))
 					}
 				case ri.base[0] == 'P':
+					if e.resolvedCallback(x) {
+						// the closure is only handed to library helpers that do nothing with it but call it: its
+						// effects on what it is called with are accounted inside those helpers (where the call graph
+						// resolves the call and the arguments are known), not as "some callback parameter"
+						continue
+					}
 					e.emit(fn, s, strset{"CBP" + ri.base[1:]: true}, ef.Loc, ef.CT, ef.Pos, ef.Fn, via, nil)
 				default:
 					e.emit(fn, s, strset{ef.Root: true}, ef.Loc, ef.CT, ef.Pos, ef.Fn, via, nil)
@@ -297,4 +303,68 @@ func subst0(v strset) strset {
 		}
 	}
 	return out
+}
+
+// resolvedCallback: every use of the closure value is as an argument of a static call to an analysed function
+// whose corresponding parameter is only ever called (or compared with nil), or as the callee of a direct call.
+func (e *Effects) resolvedCallback(x *ssa.MakeClosure) bool {
+	used := false
+	for _, r := range *x.Referrers() {
+		switch y := r.(type) {
+		case *ssa.DebugRef:
+		case *ssa.Call:
+			if y.Call.Value == ssa.Value(x) {
+				used = true
+				continue
+			}
+			h := y.Call.StaticCallee()
+			if h == nil || e.Sum[h] == nil || len(h.Blocks) == 0 {
+				return false
+			}
+			for k, a := range y.Call.Args {
+				if a != ssa.Value(x) {
+					continue
+				}
+				if k >= len(h.Params) || !paramOnlyCalled(h.Params[k]) {
+					return false
+				}
+				used = true
+			}
+		default:
+			return false
+		}
+	}
+	return used
+}
+
+func paramOnlyCalled(par *ssa.Parameter) bool {
+	refs := par.Referrers()
+	if refs == nil {
+		return false
+	}
+	for _, r := range *refs {
+		switch y := r.(type) {
+		case *ssa.DebugRef:
+		case *ssa.Call:
+			if y.Call.Value != ssa.Value(par) {
+				return false
+			}
+			for _, a := range y.Call.Args {
+				if a == ssa.Value(par) {
+					return false
+				}
+			}
+		case *ssa.BinOp:
+			other := y.Y
+			if y.Y == ssa.Value(par) {
+				other = y.X
+			}
+			if c, ok := other.(*ssa.Const); !ok || c.Value != nil {
+				return false
+			}
+		default:
+			return false
+		}
+	}
+	return true
 }
